@@ -396,7 +396,7 @@ pub fn ot_session(seed: u64, name: &str, sid: [u8; 32], a: [Scalar; 2]) -> OtSes
     let mut rr = rng(seed, &recv_stream);
     let tape_a = eot_recv_tape(&mut rr);
     let tape_b = eot_recv_tape(&mut rr);
-    let mut sr = rng(seed, &send_stream);
+    let mut sr = tape_rng(seed, &send_stream);
     let tbs_a: Vec<Scalar> = (0..512).map(|_| *k256::NonZeroScalar::random(&mut sr)).collect();
     let tbs_b: Vec<Scalar> = (0..512).map(|_| *k256::NonZeroScalar::random(&mut sr)).collect();
     let mut eta_tape = vec![0u8; 64];
@@ -410,7 +410,7 @@ pub fn ot_session(seed: u64, name: &str, sid: [u8; 32], a: [Scalar; 2]) -> OtSes
     if sid[1] & 1 == 1 {
         dirty_fill(bytemuck::bytes_of_mut(&mut *out), &sid);
     }
-    let mut r2 = rng(seed, &send_stream);
+    let mut r2 = tape_rng(seed, &send_stream);
     let send = match catch_unwind(AssertUnwindSafe(|| rvot::RVOLESender::process(&sid, &a, &m1, &mut out, &mut r2))) {
         Ok(Ok(c)) => Ok((bytemuck::bytes_of(&*out).to_vec(), c)),
         Ok(Err(_)) => Err("err3".into()),
@@ -677,6 +677,8 @@ pub fn ext_case(seed: u64, k: usize) -> ExtSession {
     }
     let mut eta_tape = vec![0u8; 64];
     r.fill_bytes(&mut eta_tape);
+    // degenerate sender: input (0, 0) together with an all-zero eta tape (the honest check value eta is then 32 zero bytes)
+    let (a0, a1, n0, n1) = if k % 6 == 4 { eta_tape = vec![0u8; 64]; (Scalar::ZERO, Scalar::ZERO, "0", "0:eta-tape=0") } else { (a0, a1, n0, n1) };
     let name = format!("{k}:a=({n0},{n1}):sid={sn}:seeds={}:buf={}", if pipeline { "pipeline" } else { "synthetic" }, if dirty { "reused" } else { "default" });
     ext_session(&name, sid, make_seeds(seed, &format!("c01-seeds-{k}"), pipeline), buf, new_tape, [a0, a1], eta_tape)
 }
@@ -686,6 +688,10 @@ pub fn ot_case(seed: u64, k: usize) -> OtSession {
     let (a0, n0) = input_scalar(k + 2, &mut r);
     let (a1, n1) = input_scalar(k / 5 + 2 * k, &mut r);
     let (sid, sn) = session_id(k + 1, &mut r);
+    if k % 6 == 4 {
+        // input (0, 0) and an all-zero eta draw (the sender's stream: 2 x 512 base-OT scalars, then eta)
+        return ot_session(seed, &format!("{k}:a=(0,0):sid={sn}#zero64@32768"), sid, [Scalar::ZERO, Scalar::ZERO]);
+    }
     ot_session(seed, &format!("{k}:a=({n0},{n1}):sid={sn}"), sid, [a0, a1])
 }
 
